@@ -81,7 +81,7 @@ Definition ex_loud_assert : program := ex_loud (EBin BLt (ENum 2) (ENum 1)).
 Ltac loud_small p :=
   split;
   [ unfold source_ok; cbn [pfns pglobals p ex_loud]; repeat split;
-    [ repeat constructor; cbn; repeat split; reflexivity
+    [ repeat constructor; cbn; repeat split; try reflexivity; try discriminate
     | constructor
     | constructor
     | unfold VM_MAX_GLOBALS_N; cbn [length]; lia ]
@@ -154,6 +154,24 @@ Proof.
   assert (Hrun : run_vm 5000 M = VDone [50; 10; 91; 53; 44; 32; 54; 44; 32; 55; 93; 10; 53; 10; 54; 10; 55; 10] 11).
   { vm_compute in E. injection E as <-. vm_compute. reflexivity. }
   split; [vm_compute; reflexivity|]. split; [reflexivity|]. split; [exact ex_arr_small|].
+  split; [unfold fuel_small; lia|]. split.
+  - apply (depth_ok_of_run M 5000); [rewrite Hrun; discriminate|intros o; rewrite Hrun; discriminate].
+  - split; [vm_compute; reflexivity|]. split; [vm_compute; reflexivity|]. split; [vm_compute; reflexivity|].
+    split; [exact Hrun|vm_compute; reflexivity].
+Qed.
+
+(* the string program of VmSimExamples (global string, string parameter and result, + / str_concat / str_length / str_equals /
+   str_contains / char_at / str_substring / int_to_string) *)
+Example backends_agree_typed_strings : exists M,
+  wt ex_str = true /\ compile_program ex_str = Some M /\ small_program ex_str /\ fuel_small 200 /\ depth_ok M /\
+  se_program ex_str = true /\ cc_refuses ex_str = false /\
+  run_ref 200 ex_str = Done ex_str_out 119 /\ run_vm 5000 M = VDone ex_str_out 119 /\ run_nat RtoL 200 ex_str = NDone ex_str_out 119.
+Proof.
+  destruct (compile_program ex_str) as [M|] eqn:E; [|vm_compute in E; discriminate E].
+  exists M.
+  assert (Hrun : run_vm 5000 M = VDone ex_str_out 119).
+  { vm_compute in E. injection E as <-. vm_compute. reflexivity. }
+  split; [vm_compute; reflexivity|]. split; [reflexivity|]. split; [exact ex_str_small|].
   split; [unfold fuel_small; lia|]. split.
   - apply (depth_ok_of_run M 5000); [rewrite Hrun; discriminate|intros o; rewrite Hrun; discriminate].
   - split; [vm_compute; reflexivity|]. split; [vm_compute; reflexivity|]. split; [vm_compute; reflexivity|].
